@@ -199,6 +199,7 @@ type Worker struct {
 	best    *replayFile
 	bestSz  int
 	hashLog *os.File
+	inflight string
 }
 
 type replayRun struct {
